@@ -45,7 +45,11 @@ META = {
              "are read on both sides after the round trip.  Graph family: trees of 1-8 nested nodes "
              "(siblings, chains, mixed) carrying list/dict values in Any and Dict(Str, Any) traits, every copy "
              "mode incl. clone_traits(traits='all'); independence at every depth, then the copy is mutated "
-             "everywhere and the original must not change.  B: cases = (definition kind, round-trip mode) "
+             "everywhere and the original must not change.  Restricted family: classes whose single "
+             "write-restricted trait carries a value never assigned by the user (ReadOnly with a declared "
+             "default / a default method / assigned once / unassigned, Constant, UUID with and without "
+             "can_init), read and unread before the copy, every copy mode; value equality and the "
+             "restriction itself on the copy.  B: cases = (definition kind, round-trip mode) "
              "with kinds = c01's atomic catalogue + properties (plain/validated/cached/observed, every "
              "getter/setter/validator arity), delegates, events, constants, policies, compounds, mapped, "
              "containers, instances by class/name, adapters, misc; modes = pickle 0/2/5, deepcopy, copy; "
@@ -64,6 +68,7 @@ META = {
                   "readonly_checked": 1300, "container_copies": 1600, "ref_identity_checked": 200,
                   "deferral_checked": 3500, "min_states": 300, "min_copies": 3000, "min_copies_live": 3000,
                   "min_notify_probes": 2000, "min_checks": 3000, "min_name_classes": 45, "min_name_states": 180,
+                  "restricted_states": 15, "restricted_copies": 300, "restricted_copies_ok": 250,
                   "lazy_states": 30, "lazy_copies": 400, "lazy_unread_compared": 2500,
                   "graph_states": 50, "graph_states_3plus_nodes": 35, "graph_copies": 600,
                   "graph_deep_independence_checked_3plus": 280, "graph_nodes_compared": 2300,
@@ -78,6 +83,7 @@ META = {
                      "deferral_checked": 80000, "min_states": 5000, "min_copies": 50000,
                      "min_copies_live": 50000, "min_notify_probes": 33000, "min_checks": 60000,
                      "min_name_classes": 45, "min_name_states": 2800,
+                     "restricted_states": 300, "restricted_copies": 7000, "restricted_copies_ok": 5000,
                      "lazy_states": 800, "lazy_copies": 11000, "lazy_unread_compared": 65000,
                      "graph_states": 1300, "graph_states_3plus_nodes": 900, "graph_copies": 16000,
                      "graph_deep_independence_checked_3plus": 7000, "graph_nodes_compared": 60000,
